@@ -11,6 +11,9 @@
 //!   a  as written (early database)
 //!   b  every indexed column wrapped as `(col + 0)`, which the binder does not see through: no index applies
 //!   c  join operands permuted (LEFT <-> RIGHT), ON conjuncts reordered and, for all-inner joins, re-distributed
+//!   f  every table replaced by a derived table over it (columns permuted; for one table part of WHERE moves inside)
+//!   g  the last `column = column` conjunct of the outermost ON clause that has one written `(x + 0) = y`: no equi-join
+//!      key, so no hash or merge join there and no ordering asked of the joins below
 //!   e  as written on the late database (after `mkix`)
 //!   d  the same query again after an `analyze` op of the history (different statistics)
 //!
@@ -46,6 +49,9 @@ pub enum Op {
     /// sample rate in permille, maximal number of sampled rows
     Analyze(u32, usize),
     MkIx,
+    /// the INSERT / UPDATE / DELETE statements up to `endbatch` (or the next other op) run as one `execute_batch`
+    Batch,
+    EndBatch,
 }
 
 fn show_ixs(ixs: &[Ix]) -> String {
@@ -87,6 +93,8 @@ fn show_op(op: &Op) -> String {
         Op::Vacuum => "vacuum".into(),
         Op::Analyze(r, m) => format!("analyze {} {}", r, m),
         Op::MkIx => "mkix".into(),
+        Op::Batch => "batch".into(),
+        Op::EndBatch => "endbatch".into(),
     }
 }
 
@@ -109,6 +117,8 @@ fn parse_plan_case(line: &str) -> Option<(Vec<Table>, Vec<Ix>, Vec<Op>)> {
             ["commit"] => Op::Commit,
             ["vacuum"] => Op::Vacuum,
             ["mkix"] => Op::MkIx,
+            ["batch"] => Op::Batch,
+            ["endbatch"] => Op::EndBatch,
             ["analyze", r, m] => {
                 let ok = |s: &str| !s.is_empty() && s.len() < 8 && s.bytes().all(|b| b.is_ascii_digit());
                 if !ok(r) || !ok(m) {
@@ -149,6 +159,7 @@ fn sql_ty(t: Ty) -> &'static str {
         Ty::BigInt => "BIGINT",
         Ty::Bool => "BOOLEAN",
         Ty::Text => "TEXT",
+        Ty::Double => "DOUBLE",
     }
 }
 
@@ -173,6 +184,12 @@ fn leaves(f: &From, db: &[Table], out: &mut Vec<(usize, usize)>, width: &mut usi
             leaves(l, db, out, width);
             leaves(r, db, out, width);
         }
+        // a derived table written in the case itself (engine `sql` generates them; this engine's generator does not):
+        // one opaque leaf
+        From::Derived(_, _, items) => {
+            out.push((super::sql::DERIVED_LEAF, *width));
+            *width += items.len();
+        }
     }
 }
 
@@ -184,8 +201,7 @@ fn leaves_of(f: &From, db: &[Table]) -> (Vec<(usize, usize)>, usize) {
 }
 
 fn from_tys(f: &From, db: &[Table]) -> Vec<Ty> {
-    let (ls, _) = leaves_of(f, db);
-    ls.iter().flat_map(|(t, _)| db.get(*t).map(|t| t.tys.clone()).unwrap_or_default()).collect()
+    super::sql::from_tys(f, db)
 }
 
 #[derive(Clone, Copy, PartialEq, Eq, Debug)]
@@ -199,6 +215,31 @@ pub enum Variant {
     /// table the first conjuncts of WHERE move inside (Filter over Project over Filter: filter push-down through a
     /// projection, filter merge)
     Derived(u64),
+    /// the last `column = column` conjunct (integer columns) of the outermost ON clause that has one is written
+    /// `(x + 0) = y`: that join has no equi-join key any more, so it is neither a hash join nor a merge join and the
+    /// joins below it are not asked for an ordering
+    NoEquiKey,
+}
+
+/// the FROM clause of form `g`; `None` if no ON clause has a `column = column` conjunct over integer columns
+fn defeat_equi(f: &From, tys: &[Ty]) -> Option<From> {
+    let From::Join(k, l, r, on) = f else { return None };
+    if let Some(on) = on {
+        let mut cs = Vec::new();
+        conjuncts(on, &mut cs);
+        let int_col = |e: &E| matches!(e, E::Col(i) if tys.get(*i).copied().map(is_int).unwrap_or(false));
+        let hit = cs.iter().rposition(|c| matches!(c, E::Cmp(op, a, d) if *op == "eq" && int_col(a) && int_col(d)));
+        if let Some(i) = hit {
+            if let E::Cmp(op, a, d) = cs[i].clone() {
+                cs[i] = E::Cmp(op, Box::new(E::Arith("add", a, Box::new(E::Lit(Val::Int(0))))), d);
+            }
+            return Some(From::Join(k, l.clone(), r.clone(), conj(cs)));
+        }
+    }
+    if let Some(l2) = defeat_equi(l, tys) {
+        return Some(From::Join(k, Box::new(l2), r.clone(), on.clone()));
+    }
+    defeat_equi(r, tys).map(|r2| From::Join(k, l.clone(), Box::new(r2), on.clone()))
 }
 
 fn is_int(t: Ty) -> bool {
@@ -251,8 +292,8 @@ fn expr_cols(e: &E, out: &mut Vec<usize>) {
     match e {
         E::Lit(_) => {}
         E::Col(i) => out.push(*i),
-        E::Not(a) | E::Neg(a) | E::Pos(a) | E::IsNull(_, a) => expr_cols(a, out),
-        E::And(a, b) | E::Or(a, b) | E::Cmp(_, a, b) | E::Arith(_, a, b) | E::Like(_, a, b) => {
+        E::Not(a) | E::Neg(a) | E::Pos(a) | E::IsNull(_, a) | E::StrFn(_, a) => expr_cols(a, out),
+        E::And(a, b) | E::Or(a, b) | E::Cmp(_, a, b) | E::Arith(_, a, b) | E::Like(_, a, b) | E::Concat(a, b) => {
             expr_cols(a, out);
             expr_cols(b, out)
         }
@@ -265,6 +306,18 @@ fn expr_cols(e: &E, out: &mut Vec<usize>) {
             expr_cols(a, out);
             for x in xs {
                 expr_cols(x, out)
+            }
+        }
+        E::Case(x, arms, els) => {
+            if let Some(x) = x {
+                expr_cols(x, out)
+            }
+            for (c, r) in arms {
+                expr_cols(c, out);
+                expr_cols(r, out)
+            }
+            if let Some(e) = els {
+                expr_cols(e, out)
             }
         }
     }
@@ -292,20 +345,26 @@ fn left_deep(f: &From) -> Option<(usize, Vec<(&'static str, Option<E>)>)> {
             js.push((*k, on.clone()));
             Some((t, js))
         }
+        From::Derived(..) => None,
     }
 }
 
 /// FROM clause as written
-fn sql_from_plain(f: &From, next: &mut usize, col: &dyn Fn(usize) -> String) -> String {
+fn sql_from_plain(f: &From, db: &[Table], next: &mut usize, col: &dyn Fn(usize) -> String) -> String {
     match f {
         From::Table(t) => {
             let s = format!("t{} AS r{}", t, *next);
             *next += 1;
             s
         }
+        From::Derived(inner, w, items) => {
+            let s = super::sql::sql_derived(inner, w, items, *next, db);
+            *next += 1;
+            s
+        }
         From::Join(k, l, r, on) => {
-            let ls = sql_from_plain(l, next, col);
-            let rs = sql_from_plain(r, next, col);
+            let ls = sql_from_plain(l, db, next, col);
+            let rs = sql_from_plain(r, db, next, col);
             match on {
                 Some(e) => format!("{} {} {} ON {}", ls, join_kw(k), rs, sql_expr(e, 1, col)),
                 None => format!("{} {} {}", ls, join_kw(k), rs),
@@ -447,6 +506,7 @@ fn sql_from_derived(
         _ => {
             fn go(
                 f: &From,
+                db: &[Table],
                 next: &mut usize,
                 derived: &mut dyn FnMut(usize, usize, Option<String>) -> String,
                 col: &dyn Fn(usize) -> String,
@@ -457,9 +517,14 @@ fn sql_from_derived(
                         *next += 1;
                         s
                     }
+                    From::Derived(inner, w, items) => {
+                        let s = super::sql::sql_derived(inner, w, items, *next, db);
+                        *next += 1;
+                        s
+                    }
                     From::Join(k, l, r, on) => {
-                        let ls = go(l, next, derived, col);
-                        let rs = go(r, next, derived, col);
+                        let ls = go(l, db, next, derived, col);
+                        let rs = go(r, db, next, derived, col);
                         match on {
                             Some(e) => format!("{} {} {} ON {}", ls, join_kw(k), rs, sql_expr(e, 1, col)),
                             None => format!("{} {} {}", ls, join_kw(k), rs),
@@ -468,7 +533,7 @@ fn sql_from_derived(
                 }
             }
             let mut next = 0;
-            (go(f, &mut next, &mut derived, col), None)
+            (go(f, db, &mut next, &mut derived, col), None)
         }
     }
 }
@@ -489,6 +554,11 @@ pub fn select_sql(q: &Select, db: &[Table], ixs: &[Ix], v: Variant) -> Option<St
     let col = col_printer(&ls, db, ixs, wrap);
     let mut where_override: Option<Vec<E>> = None;
     let (from_sql, extra_where) = match v {
+        Variant::NoEquiKey => {
+            let f = defeat_equi(&q.from, &from_tys(&q.from, db))?;
+            let mut next = 0;
+            (sql_from_plain(&f, db, &mut next, &col), vec![])
+        }
         Variant::Permuted(seed) => sql_from_permuted(&q.from, db, seed, &col)?,
         Variant::Derived(seed) => {
             let (s, outside) = sql_from_derived(&q.from, db, seed, &q.where_, &col);
@@ -497,7 +567,7 @@ pub fn select_sql(q: &Select, db: &[Table], ixs: &[Ix], v: Variant) -> Option<St
         }
         _ => {
             let mut next = 0;
-            (sql_from_plain(&q.from, &mut next, &col), vec![])
+            (sql_from_plain(&q.from, db, &mut next, &col), vec![])
         }
     };
     let out_exprs: Vec<String>;
@@ -823,12 +893,45 @@ fn digest(explain: &Result<String, String>) -> String {
     }
 }
 
+/// Does every operator of the plan get its inputs in the ordering it requires?  The rule is the specification's
+/// (`Plan.leads`, Thm.C06.ordering_satisfies_iff_prefix): the required keys are the first keys the input declares.
+/// Returns the first operator that does not; `edges` counts the inputs an ordering is required of.
+fn lacks_ordering(p: &vp::VPhys, edges: &mut usize) -> Option<String> {
+    for (i, c) in p.children.iter().enumerate() {
+        let req = p.requires.get(i).cloned().unwrap_or_default();
+        if !req.is_empty() {
+            *edges += 1;
+            let ok = req.len() <= c.delivers.len() && req.iter().zip(&c.delivers).all(|((col, asc), d)| *d == vp::VOrdKey::Col(*col, *asc));
+            if !ok {
+                let show = |ks: &[vp::VOrdKey]| {
+                    ks.iter()
+                        .map(|k| match k {
+                            vp::VOrdKey::Col(c, true) => format!("a{}", c),
+                            vp::VOrdKey::Col(c, false) => format!("d{}", c),
+                            vp::VOrdKey::Expr(true) => "x".into(),
+                            vp::VOrdKey::Expr(false) => "y".into(),
+                        })
+                        .collect::<Vec<_>>()
+                        .join(",")
+                };
+                let reqs = req.iter().map(|(c, asc)| format!("{}{}", if *asc { "a" } else { "d" }, c)).collect::<Vec<_>>().join(",");
+                return Some(format!("{}.input{}:requires={}:{}-delivers={}", p.op, i, reqs, c.op, if c.delivers.is_empty() { "-".into() } else { show(&c.delivers) }));
+            }
+        }
+        if let Some(x) = lacks_ordering(c, edges) {
+            return Some(x);
+        }
+    }
+    None
+}
+
 fn variant_name(v: Variant) -> &'static str {
     match v {
         Variant::AsWritten => "a",
         Variant::NoIndex => "b",
         Variant::Permuted(_) => "c",
         Variant::Derived(_) => "f",
+        Variant::NoEquiKey => "g",
     }
 }
 
@@ -847,6 +950,42 @@ pub struct Outcome {
     pub facts: BTreeMap<String, usize>,
 }
 
+/// `Database::execute_batch` of the collected statements on both databases; the outcome of every statement goes to
+/// its place in `outs`.  A failed batch fails as a whole (`E<class>` for each of its statements).
+fn flush_batch(stmts: &[(usize, String)], early: &mut Inst, late: Option<&mut Inst>, outs: &mut [String], failed: &mut bool) {
+    if stmts.is_empty() {
+        return;
+    }
+    let sqls: Vec<&str> = stmts.iter().map(|(_, s)| s.as_str()).collect();
+    let run = |inst: &mut Inst| -> Vec<String> {
+        match inst.db().execute_batch(&sqls) {
+            Ok(rs) => rs.into_iter().map(|r| canon_result(Ok(r), None)).collect(),
+            Err(e) => {
+                let c = format!("E{}", err_class(&e.to_string()));
+                sqls.iter().map(|_| c.clone()).collect()
+            }
+        }
+    };
+    let a = run(early);
+    let e = late.map(run);
+    for (k, (pos, _)) in stmts.iter().enumerate() {
+        let ak = a.get(k).cloned().unwrap_or_else(|| "Eother".into());
+        let mut o = ak.clone();
+        if let Some(e) = &e {
+            let ek = e.get(k).cloned().unwrap_or_else(|| "Eother".into());
+            if ek != ak {
+                o = format!("PROPFAIL variant=e a={} e={}", ak, ek);
+            }
+        }
+        if ak.starts_with('E') {
+            *failed = true;
+        }
+        if let Some(slot) = outs.get_mut(*pos) {
+            *slot = o;
+        }
+    }
+}
+
 /// Runs a case.  `run_queries = false`: only EXPLAIN (used by the generator to measure plan diversity).
 pub fn run_case(line: &str, run_queries: bool) -> Outcome {
     let mut facts: BTreeMap<String, usize> = BTreeMap::new();
@@ -855,6 +994,7 @@ pub fn run_case(line: &str, run_queries: bool) -> Outcome {
     };
     let fail = |what: String| Outcome { line: format!("setup-failed ## {} {:?}", what, take_worker_panic()), facts: BTreeMap::new() };
     let seed = case_seed(line);
+    vp::record_plans(true);
     let mut early = Inst::new();
     if let Err(e) = early.create_tables(&tables).and_then(|_| early.create_indexes(&ixs)).and_then(|_| early.load(&tables)) {
         return fail(format!("early {}", e));
@@ -876,12 +1016,35 @@ pub fn run_case(line: &str, run_queries: bool) -> Outcome {
     // digest of form `a` of every query text seen so far (to see whether ANALYZE changed the plan)
     let mut seen: BTreeMap<String, String> = BTreeMap::new();
     let mut analyzed = false;
+    // an open batch: (position in `outs`, SQL text) of the statements collected so far
+    let mut batch: Option<Vec<(usize, String)>> = None;
     for (opno, op) in ops.iter().enumerate() {
         if failed {
             outs.push("-".into());
             continue;
         }
+        let collects = batch.is_some() && early.sess.is_none() && matches!(op, Op::Stmt(Stmt::Insert(..) | Stmt::Update(..) | Stmt::Delete(..)));
+        if !collects {
+            if let Some(stmts) = batch.take() {
+                flush_batch(&stmts, &mut early, late.as_mut(), &mut outs, &mut failed);
+                if failed {
+                    outs.push("-".into());
+                    continue;
+                }
+            }
+        }
         match op {
+            Op::Batch => {
+                batch = Some(Vec::new());
+                outs.push("ok".into());
+            }
+            Op::EndBatch => outs.push("ok".into()),
+            Op::Stmt(s @ (Stmt::Insert(..) | Stmt::Update(..) | Stmt::Delete(..))) if collects => {
+                if let Some(b) = batch.as_mut() {
+                    b.push((outs.len(), dml_sql(s)));
+                }
+                outs.push("?".into());
+            }
             Op::Begin => {
                 for inst in std::iter::once(&mut early).chain(late.iter_mut()) {
                     if inst.sess.is_none() {
@@ -952,9 +1115,13 @@ pub fn run_case(line: &str, run_queries: bool) -> Outcome {
                     Variant::NoIndex,
                     Variant::Permuted(seed ^ opno as u64),
                     Variant::Derived(seed ^ opno as u64 ^ 0x5bd1e995),
+                    Variant::NoEquiKey,
                 ];
                 let mut results: Vec<(String, String)> = Vec::new(); // (form name, canonical result)
                 let mut digs: Vec<(String, String)> = Vec::new();
+                // forms whose chosen plan feeds an operator an input that does not declare the ordering it requires
+                let mut unordered: Vec<(String, String)> = Vec::new();
+                let mut ord_edges = 0usize;
                 let sql_a = select_sql(q, &tables, &ixs, Variant::AsWritten).unwrap_or_default();
                 for v in forms {
                     let Some(sql) = select_sql(q, &tables, &ixs, v) else { continue };
@@ -962,19 +1129,36 @@ pub fn run_case(line: &str, run_queries: bool) -> Outcome {
                         continue;
                     }
                     let name = variant_name(v).to_string();
+                    let _ = vp::take_last_plan();
                     digs.push((name.clone(), digest(&early.db().explain(&sql).map_err(|e| e.to_string()))));
+                    if let Some(p) = vp::take_last_plan() {
+                        let mut edges = 0;
+                        if let Some(what) = lacks_ordering(&p, &mut edges) {
+                            unordered.push((name.clone(), what));
+                        }
+                        ord_edges += edges;
+                    }
                     if run_queries {
                         results.push((name, canon_result(early.run(&sql), Some(q))));
                     }
                 }
                 if let Some(l) = late.as_mut() {
                     if l.has_ix {
+                        let _ = vp::take_last_plan();
                         digs.push(("e".into(), digest(&l.db().explain(&sql_a).map_err(|e| e.to_string()))));
+                        if let Some(p) = vp::take_last_plan() {
+                            let mut edges = 0;
+                            if let Some(what) = lacks_ordering(&p, &mut edges) {
+                                unordered.push(("e".into(), what));
+                            }
+                            ord_edges += edges;
+                        }
                         if run_queries {
                             results.push(("e".into(), canon_result(l.run(&sql_a), Some(q))));
                         }
                     }
                 }
+                bump("ordering-required", ord_edges);
                 let da = digs[0].1.clone();
                 for (n, d) in &digs[1..] {
                     bump("pairs", 1);
@@ -1008,9 +1192,10 @@ pub fn run_case(line: &str, run_queries: bool) -> Outcome {
                 diags.push(format!("q{}:{}", opno, digs.iter().map(|(n, d)| format!("{}={}", n, d)).collect::<Vec<_>>().join("|")));
                 if run_queries {
                     let a = results[0].1.clone();
-                    match results.iter().find(|(_, r)| *r != a) {
-                        None => outs.push(format!("same {}", a)),
-                        Some((n, r)) => outs.push(format!("PROPFAIL variant={} a={} {}={}", n, a, n, r)),
+                    match (unordered.first(), results.iter().find(|(_, r)| *r != a)) {
+                        (Some((n, what)), _) => outs.push(format!("PROPFAIL variant={} input-not-ordered {}", n, what)),
+                        (None, None) => outs.push(format!("same {}", a)),
+                        (None, Some((n, r))) => outs.push(format!("PROPFAIL variant={} a={} {}={}", n, a, n, r)),
                     }
                 } else {
                     outs.push("-".into());
@@ -1020,6 +1205,9 @@ pub fn run_case(line: &str, run_queries: bool) -> Outcome {
         if let Some(p) = take_worker_panic() {
             panics.push(p);
         }
+    }
+    if let Some(stmts) = batch.take() {
+        flush_batch(&stmts, &mut early, late.as_mut(), &mut outs, &mut failed);
     }
     let pairs = facts.get("pairs").copied().unwrap_or(0);
     let differ = facts.get("differ").copied().unwrap_or(0);
@@ -1143,6 +1331,8 @@ fn to_vexpr(e: &E) -> vp::VExpr {
         E::IsNull(n, a) => vp::VExpr::IsNull(*n, b(a)),
         E::Between(n, a, lo, hi) => vp::VExpr::Between(*n, b(a), b(lo), b(hi)),
         E::InList(n, a, xs) => vp::VExpr::InList(*n, b(a), xs.iter().map(to_vexpr).collect()),
+        // CASE and the string functions are not part of the rule facade; the plan generators never produce them
+        E::Case(..) | E::StrFn(..) | E::Concat(..) => vp::VExpr::Lit(vp::VLit::Null),
     }
 }
 
@@ -1387,6 +1577,112 @@ fn run_rule_case(line: &str) -> String {
     }
 }
 
+// ------------------------------------------------------------------------------------------------ ordering cases
+
+/// `ord <DELIVERED> <REQUIRED>` → `sat` / `unsat`: `PhysicalProperties::satisfies` through the facade
+/// (`verif::plan::ordering_satisfies`); syntax in `lean/AxVerif/Driver/Plan.lean`.
+fn run_ord_case(line: &str) -> String {
+    let ws: Vec<&str> = line.split_whitespace().collect();
+    if ws.len() != 3 || ws[0] != "ord" {
+        return "bad-op".into();
+    }
+    let key = |w: &str| -> Option<(usize, bool)> {
+        let asc = match w.chars().next()? {
+            'a' => true,
+            'd' => false,
+            _ => return None,
+        };
+        let n = &w[1..];
+        if n.is_empty() || n.len() > 7 || !n.bytes().all(|b| b.is_ascii_digit()) {
+            return None;
+        }
+        Some((n.parse().ok()?, asc))
+    };
+    let mut delivered: Vec<vp::VOrdKey> = Vec::new();
+    if ws[1] != "-" {
+        for w in ws[1].split(',') {
+            match w {
+                "x" => delivered.push(vp::VOrdKey::Expr(true)),
+                "y" => delivered.push(vp::VOrdKey::Expr(false)),
+                _ => match key(w) {
+                    Some((c, asc)) => delivered.push(vp::VOrdKey::Col(c, asc)),
+                    None => return "bad-op".into(),
+                },
+            }
+        }
+    }
+    let mut required: Vec<(usize, bool)> = Vec::new();
+    if ws[2] != "-" {
+        for w in ws[2].split(',') {
+            match key(w) {
+                Some(k) => required.push(k),
+                None => return "bad-op".into(),
+            }
+        }
+    }
+    if vp::ordering_satisfies(&delivered, &required) { "sat".into() } else { "unsat".into() }
+}
+
+/// random pairs of orderings, most of them near the boundary: one a prefix of the other, equal, or differing in one
+/// key's column, direction or kind
+fn gen_ord_case(rng: &mut Rng) -> Case {
+    let mut tags: Vec<String> = vec!["ord".into()];
+    let show_r = |k: &(usize, bool)| format!("{}{}", if k.1 { "a" } else { "d" }, k.0);
+    let n = *rng.pick(&[0usize, 1, 1, 2, 2, 2, 3, 3, 4]);
+    let base: Vec<(usize, bool)> = (0..n).map(|_| (rng.below(5) as usize, rng.chance(4, 5))).collect();
+    let mut required = base.clone();
+    let mut delivered: Vec<String> = base.iter().map(show_r).collect();
+    let shape = rng.below(10);
+    match shape {
+        0 | 1 => tags.push("ord.equal".into()),
+        2 | 3 => {
+            // the delivered ordering goes on
+            tags.push("ord.delivered-longer".into());
+            for _ in 0..rng.range(1, 2) {
+                delivered.push(if rng.chance(1, 5) { "x".into() } else { show_r(&(rng.below(5) as usize, rng.chance(4, 5))) });
+            }
+        }
+        4..=6 => {
+            // the required ordering goes on: the delivered one is a proper prefix of it
+            tags.push("ord.required-longer".into());
+            for _ in 0..rng.range(1, 2) {
+                required.push((rng.below(5) as usize, rng.chance(4, 5)));
+            }
+        }
+        7 | 8 => {
+            // one delivered key differs
+            tags.push("ord.one-key-differs".into());
+            if !delivered.is_empty() {
+                let i = rng.below(delivered.len() as u64) as usize;
+                let (c, asc) = base[i];
+                delivered[i] = match rng.below(4) {
+                    0 => show_r(&(c, !asc)),
+                    1 => show_r(&(c + 1, asc)),
+                    2 => if asc { "x".into() } else { "y".into() },
+                    _ => show_r(&(rng.below(5) as usize, rng.chance(1, 2))),
+                };
+                if rng.chance(1, 3) {
+                    required.push((rng.below(5) as usize, true));
+                }
+            }
+        }
+        _ => {
+            tags.push("ord.unrelated".into());
+            delivered = (0..rng.below(4)).map(|_| show_r(&(rng.below(5) as usize, rng.chance(1, 2)))).collect();
+        }
+    }
+    if required.is_empty() {
+        tags.push("ord.nothing-required".into());
+    }
+    if delivered.is_empty() {
+        tags.push("ord.nothing-delivered".into());
+    }
+    let d = if delivered.is_empty() { "-".to_string() } else { delivered.join(",") };
+    let r = if required.is_empty() { "-".to_string() } else { required.iter().map(show_r).collect::<Vec<_>>().join(",") };
+    tags.push("nt".into());
+    Case { line: format!("ord {} {}", d, r), tags }
+}
+
 // generator of rule-level cases
 
 struct RG<'a> {
@@ -1409,6 +1705,8 @@ impl<'a> RG<'a> {
             }
             Ty::Bool => E::Lit(Val::Bool(self.rng.chance(1, 2))),
             Ty::Text => E::Lit(Val::Text(self.rng.pick(&TEXTS).as_bytes().to_vec())),
+            // (the generators of this engine build no DOUBLE columns)
+            Ty::Double => E::Lit(Val::Null),
         }
     }
 
@@ -1577,6 +1875,7 @@ fn gen_rule_case_once(rng: &mut Rng) -> Option<Case> {
                         Ty::BigInt => 'B',
                         Ty::Bool => 'O',
                         Ty::Text => 'S',
+                        Ty::Double => 'D',
                     };
                     if *nn { ch.to_ascii_lowercase() } else { ch }
                 })
@@ -1599,7 +1898,8 @@ fn gen_rule_case_once(rng: &mut Rng) -> Option<Case> {
                             Ty::Int => vp::VTy::Int,
                             Ty::BigInt => vp::VTy::BigInt,
                             Ty::Bool => vp::VTy::Bool,
-                            Ty::Text => vp::VTy::Text,
+                            // (no DOUBLE columns in rule cases)
+                            Ty::Text | Ty::Double => vp::VTy::Text,
                         },
                         *nn,
                     )
@@ -1752,6 +2052,7 @@ impl<'a> G<'a> {
             }
             Ty::Bool => Val::Bool(self.rng.chance(1, 2)),
             Ty::Text => Val::Text(self.rng.pick(&TEXTS).as_bytes().to_vec()),
+            Ty::Double => Val::Null,
         }
     }
 
@@ -2182,6 +2483,248 @@ impl<'a> G<'a> {
         }
     }
 
+    /// `WHERE k1 = v1 [AND k2 = v2]` over the columns of an index, for the key of `row` (a NULL part: `IS NULL`)
+    fn key_pred(&mut self, kcols: &[usize], row: &[Val]) -> E {
+        let mut cs = Vec::new();
+        for &c in kcols {
+            let v = row[c].clone();
+            cs.push(if v == Val::Null {
+                E::IsNull(false, b(E::Col(c)))
+            } else if self.rng.chance(1, 4) {
+                cmp("eq", E::Lit(v), E::Col(c))
+            } else {
+                cmp("eq", E::Col(c), E::Lit(v))
+            });
+        }
+        conj(cs).unwrap()
+    }
+
+    fn star_query(&self, t: usize, w: Option<E>) -> Op {
+        Op::Stmt(Stmt::Select(Select {
+            distinct: false,
+            from: From::Table(t),
+            where_: w,
+            group_by: vec![],
+            aggs: vec![],
+            items: None,
+            order_by: vec![],
+            limit: None,
+            offset: None,
+            having: None,
+        }))
+    }
+
+    /// The family "keys re-used inside one transaction".  Within one session (committed or rolled back) or one
+    /// `execute_batch`: rows are deleted and rows with the same indexed keys are inserted again (same or other values in
+    /// the remaining columns); the mirror shapes (insert then delete; delete, insert, delete [, insert]); and the key of a
+    /// rolled-back INSERT inserted again.  Afterwards every touched key is looked up — the pair forms compare the index
+    /// plan with the table scan — before and after VACUUM (and after ANALYZE where it is allowed).
+    fn reuse_family(&mut self, ops: &mut Vec<Op>) -> bool {
+        let cands: Vec<(usize, usize)> = self
+            .ixs
+            .iter()
+            .enumerate()
+            .filter(|(_, x)| self.cur[x.table].len() >= 2)
+            .map(|(i, x)| (i, x.table))
+            .collect();
+        if cands.is_empty() {
+            return false;
+        }
+        let (ixno, t) = *self.rng.pick(&cands);
+        let kcols = self.ixs[ixno].cols.clone();
+        let tys = self.db[t].tys.clone();
+        // 0 delete+reinsert, 1 mirror (insert then delete), 2 delete-insert-delete[-insert], 3 key of a rolled-back insert
+        let shape = *self.rng.pick(&[0usize, 0, 0, 0, 1, 2, 2, 3]);
+        // 0 session committed, 1 batch, 2 session rolled back
+        let form = if shape == 3 {
+            2
+        } else if self.region == Region::ReinsertInRollback {
+            *self.rng.pick(&[2usize, 2, 0, 1])
+        } else if shape == 1 {
+            *self.rng.pick(&[0usize, 1, 2])
+        } else {
+            *self.rng.pick(&[0usize, 0, 1, 1])
+        };
+        self.tag(&format!("fam.reuse.{}", ["delete-insert", "insert-delete", "delete-insert-delete", "after-rolled-back-insert"][shape]));
+        self.tag(&format!("fam.form.{}", ["session-commit", "batch", "session-rollback"][form]));
+        if form == 2 && (shape == 0 || shape == 2) {
+            // the listed finding: the index entry of the old row is replaced and not restored by the rollback
+            self.tag("reg.reinsert-in-rollback");
+        }
+        let saved = (self.cur.clone(), self.deleted.clone());
+        let mut touched: Vec<Vec<Val>> = Vec::new(); // rows whose keys are looked up afterwards
+        let mut body: Vec<Op> = Vec::new();
+        // a row that re-uses the unique keys of `old` (all of them, or the indexed ones only), other columns the same or new
+        let reuse = |g: &mut Self, old: &[Val]| -> Vec<Val> {
+            let only_index = g.rng.chance(1, 3);
+            let same_rest = g.rng.chance(1, 3);
+            (0..tys.len())
+                .map(|c| {
+                    if kcols.contains(&c) {
+                        old[c].clone()
+                    } else if g.uniq[t].contains(&c) {
+                        if only_index { g.fresh_val(t, c) } else { old[c].clone() }
+                    } else if same_rest {
+                        old[c].clone()
+                    } else {
+                        g.plain_val(tys[c], true)
+                    }
+                })
+                .collect()
+        };
+        let del_of = |g: &mut Self, row: &[Val]| -> Stmt {
+            // by the indexed key (through the index) or by id
+            let w = if g.rng.chance(2, 3) && kcols.iter().all(|c| row[*c] != Val::Null) {
+                g.key_pred(&kcols, row)
+            } else {
+                cmp("eq", E::Col(0), E::Lit(row[0].clone()))
+            };
+            Stmt::Delete(t, Some(w))
+        };
+        let ins_of = |rows: &[Vec<Val>]| -> Stmt { Stmt::Insert(t, rows.iter().map(|r| r.iter().map(|v| E::Lit(v.clone())).collect()).collect()) };
+        match shape {
+            0 => {
+                let k = (self.rng.range(1, 3) as usize).min(self.cur[t].len());
+                let mut idx: Vec<usize> = (0..self.cur[t].len()).collect();
+                self.rng.shuffle(&mut idx);
+                let victims: Vec<Vec<Val>> = idx[..k].iter().map(|i| self.cur[t][*i].clone()).collect();
+                for v in &victims {
+                    let d = del_of(self, v);
+                    if let Stmt::Delete(_, w) = &d {
+                        self.sim_delete(t, w);
+                    }
+                    body.push(Op::Stmt(d));
+                    touched.push(v.clone());
+                }
+                let nre = self.rng.range(1, k as i64) as usize;
+                let mut news: Vec<Vec<Val>> = victims[..nre].iter().map(|v| reuse(self, v)).collect();
+                if self.rng.chance(1, 4) {
+                    news.push(self.new_row(t));
+                }
+                if self.rng.chance(1, 2) || news.len() == 1 {
+                    self.sim_insert(t, &news);
+                    body.push(Op::Stmt(ins_of(&news)));
+                } else {
+                    for r in &news {
+                        self.sim_insert(t, std::slice::from_ref(r));
+                        body.push(Op::Stmt(ins_of(std::slice::from_ref(r))));
+                    }
+                }
+                touched.extend(news);
+            }
+            1 => {
+                let n = self.rng.range(1, 3) as usize;
+                let news: Vec<Vec<Val>> = (0..n).map(|_| self.new_row(t)).collect();
+                self.sim_insert(t, &news);
+                body.push(Op::Stmt(ins_of(&news)));
+                let nd = self.rng.range(1, n as i64) as usize;
+                for v in news[..nd].to_vec() {
+                    let d = del_of(self, &v);
+                    if let Stmt::Delete(_, w) = &d {
+                        self.sim_delete(t, w);
+                    }
+                    body.push(Op::Stmt(d));
+                }
+                if self.rng.chance(1, 2) {
+                    let again = reuse(self, &news[0]);
+                    self.sim_insert(t, std::slice::from_ref(&again));
+                    body.push(Op::Stmt(ins_of(std::slice::from_ref(&again))));
+                    touched.push(again);
+                }
+                touched.extend(news);
+            }
+            2 => {
+                let v = self.cur[t][self.rng.below(self.cur[t].len() as u64) as usize].clone();
+                let rounds = self.rng.range(1, 2);
+                let mut last = v.clone();
+                for r in 0..=rounds {
+                    let d = del_of(self, &last);
+                    if let Stmt::Delete(_, w) = &d {
+                        self.sim_delete(t, w);
+                    }
+                    body.push(Op::Stmt(d));
+                    if r < rounds || self.rng.chance(1, 2) {
+                        last = reuse(self, &v);
+                        // the same row identity every time: only the indexed key must be the same, the other unique
+                        // columns may have become fresh ones
+                        self.sim_insert(t, std::slice::from_ref(&last));
+                        body.push(Op::Stmt(ins_of(std::slice::from_ref(&last))));
+                    }
+                }
+                touched.push(v);
+                touched.push(last);
+            }
+            _ => {
+                let n = self.rng.range(1, 2) as usize;
+                let news: Vec<Vec<Val>> = (0..n).map(|_| self.new_row(t)).collect();
+                self.sim_insert(t, &news);
+                body.push(Op::Stmt(ins_of(&news)));
+                touched.extend(news);
+            }
+        }
+        match form {
+            0 => {
+                ops.push(Op::Begin);
+                ops.extend(body);
+                ops.push(Op::Commit);
+            }
+            1 => {
+                ops.push(Op::Batch);
+                ops.extend(body);
+                ops.push(Op::EndBatch);
+            }
+            _ => {
+                ops.push(Op::Begin);
+                ops.extend(body);
+                ops.push(Op::Rollback);
+                self.cur = saved.0;
+                self.deleted = saved.1;
+            }
+        }
+        if shape == 3 {
+            // the keys of the rolled-back INSERT again: autocommit, a committed session or a batch
+            let again: Vec<Vec<Val>> = touched.iter().map(|r| reuse(self, r)).collect();
+            let wrap = self.rng.below(3);
+            match wrap {
+                0 => {}
+                1 => ops.push(Op::Begin),
+                _ => ops.push(Op::Batch),
+            }
+            self.sim_insert(t, &again);
+            ops.push(Op::Stmt(ins_of(&again)));
+            match wrap {
+                0 => {}
+                1 => ops.push(Op::Commit),
+                _ => ops.push(Op::EndBatch),
+            }
+            touched.extend(again);
+        }
+        // look every touched key up: through the index and through the table
+        touched.truncate(5);
+        let mut lookups: Vec<Op> = Vec::new();
+        for r in &touched {
+            let w = self.key_pred(&kcols, r);
+            lookups.push(self.star_query(t, Some(w)));
+        }
+        if is_int(tys[kcols[0]]) {
+            let ks: Vec<i128> = touched.iter().filter_map(|r| if let Val::Int(i) = r[kcols[0]] { Some(i) } else { None }).collect();
+            if let (Some(lo), Some(hi)) = (ks.iter().min(), ks.iter().max()) {
+                let w = and(cmp("ge", E::Col(kcols[0]), lit_i(*lo)), cmp("le", E::Col(kcols[0]), lit_i(*hi)));
+                lookups.push(self.star_query(t, Some(w)));
+            }
+        }
+        ops.extend(lookups.iter().cloned());
+        self.tag("hist.vacuum");
+        ops.push(Op::Vacuum);
+        ops.extend(lookups.iter().cloned());
+        if self.allow_analyze && self.rng.chance(1, 2) {
+            let a = self.analyze_op();
+            ops.push(a);
+            ops.extend(lookups.iter().cloned());
+        }
+        true
+    }
+
     fn analyze_op(&mut self) -> Op {
         let r = *self.rng.pick(&[1000u32, 1000, 500, 100, 10, 1]);
         let m = *self.rng.pick(&[10000usize, 1000, 50, 5, 1]);
@@ -2440,7 +2983,7 @@ impl<'a> G<'a> {
                 self.tag("where.indexable");
             }
         }
-        let mut q = Select { distinct: false, from, where_, group_by: vec![], aggs: vec![], items: None, order_by: vec![], limit: None, offset: None };
+        let mut q = Select { distinct: false, from, where_, group_by: vec![], aggs: vec![], items: None, order_by: vec![], limit: None, offset: None, having: None };
         let kind = self.rng.below(10);
         if kind < 2 {
             self.tag("q.agg");
@@ -2513,7 +3056,174 @@ fn b2(f: From) -> Box<From> {
     Box::new(f)
 }
 
+/// Family "join chains over a shared key" (what a sort enforcer is for).  Three small tables without indexes,
+/// `T ⋈ U ON T.a = U.x ⋈ V ON <keys>` where the keys of the upper join
+///   prefix    start with the left key(s) of the lower join and go on with a further column (`T.a = V.y AND T.b = V.z`):
+///             stacked merge joins, the lower one delivers `[a]`, the upper one needs `[a, b]`
+///   same      are exactly the left key(s) of the lower join (nothing to sort)
+///   reversed  hold the lower join's key last (`T.b = V.z AND T.a = V.y`)
+///   disjoint  do not hold it at all.
+/// The first key column has few distinct values (duplicates), the further columns come in no particular order, and
+/// rows inserted later by the history land behind the loaded ones.  INNER / LEFT mostly, RIGHT / FULL sometimes.
+/// The query runs before and after ANALYZE (small tables: nested loops afterwards) and once more after further
+/// INSERTs; every run in the forms a, c, f, g (g takes the merge key away).
+fn gen_chain_case(rng: &mut Rng) -> (String, BTreeSet<String>) {
+    let mut tags: BTreeSet<String> = BTreeSet::new();
+    let mut tag = |t: &str| {
+        tags.insert(t.to_string());
+    };
+    tag("fam.chain");
+    tag("shape.few-relations");
+    let with_nulls = rng.chance(1, 4);
+    if with_nulls {
+        tag("chain.null-keys");
+    }
+    // key domains: few values for the first key, a few more for the others
+    let base: i128 = rng.range(-2, 6) as i128;
+    let dom_a = rng.range(2, 3) as i128;
+    let dom_b = rng.range(2, 5) as i128;
+    let widths = [rng.range(3, 4) as usize, rng.range(3, 4) as usize, rng.range(3, 4) as usize];
+    let sizes = [rng.range(4, 12) as usize, rng.range(1, 5) as usize, rng.range(3, 10) as usize];
+    let mut db: Vec<Table> = Vec::new();
+    let key_val = |rng: &mut Rng, c: usize| -> Val {
+        if with_nulls && rng.chance(1, 10) {
+            return Val::Null;
+        }
+        // column 1 is the "first key" column of every table, the others are further keys
+        let d = if c == 1 { dom_a } else { dom_b };
+        Val::Int(base + rng.below(d as u64) as i128)
+    };
+    for k in 0..3 {
+        let mut tys = vec![Ty::Int];
+        for _ in 1..widths[k] {
+            tys.push(if rng.chance(1, 8) { Ty::BigInt } else { Ty::Int });
+        }
+        let rows: Vec<Vec<Val>> =
+            (0..sizes[k]).map(|i| (0..widths[k]).map(|c| if c == 0 { Val::Int(i as i128 + 1) } else { key_val(rng, c) }).collect()).collect();
+        db.push(Table { tys, rows });
+    }
+    let (w0, w1) = (widths[0], widths[1]);
+    let (o1, o2) = (w0, w0 + w1);
+    // lower join: T.a = U.x [AND T.b = U.y]
+    let eq = |rng: &mut Rng, l: usize, r: usize| if rng.chance(1, 4) { cmp("eq", E::Col(r), E::Col(l)) } else { cmp("eq", E::Col(l), E::Col(r)) };
+    let mut lower_left: Vec<usize> = vec![1];
+    let mut lower: Vec<E> = vec![eq(rng, 1, o1 + 1)];
+    if rng.chance(1, 5) {
+        tag("chain.lower-2keys");
+        lower_left.push(2);
+        lower.push(eq(rng, 2, o1 + 2));
+    }
+    // upper join
+    let further: Vec<usize> = (1..w0).filter(|c| !lower_left.contains(c)).collect();
+    let extra_left = if further.is_empty() || rng.chance(1, 6) { o1 + 2 } else { *rng.pick(&further) };
+    let vcols: Vec<usize> = (1..widths[2]).collect();
+    let shape = match rng.below(10) {
+        0..=5 => "prefix",
+        6 => "same",
+        7 | 8 => "reversed",
+        _ => "disjoint",
+    };
+    tag(&format!("chain.{}", shape));
+    let mut upper_pairs: Vec<(usize, usize)> = Vec::new(); // (column of T ⋈ U, column of V)
+    let shared: Vec<(usize, usize)> = lower_left.iter().enumerate().map(|(i, l)| (*l, o2 + vcols[i % vcols.len()])).collect();
+    let extra = (extra_left, o2 + vcols[lower_left.len() % vcols.len()]);
+    match shape {
+        "prefix" => {
+            upper_pairs.extend(shared);
+            upper_pairs.push(extra);
+        }
+        "same" => upper_pairs.extend(shared),
+        "reversed" => {
+            upper_pairs.push(extra);
+            upper_pairs.extend(shared);
+        }
+        _ => upper_pairs.push(extra),
+    }
+    let upper: Vec<E> = upper_pairs.iter().map(|(l, r)| eq(rng, *l, *r)).collect();
+    let kind = |rng: &mut Rng| *rng.pick(&["inner", "inner", "inner", "inner", "inner", "left", "left", "left", "left", "right", "full"]);
+    let (k_low, k_up) = (kind(rng), kind(rng));
+    tag(&format!("chain.lower.{}", k_low));
+    tag(&format!("chain.upper.{}", k_up));
+    tag(&format!("join.{}", k_low));
+    tag(&format!("join.{}", k_up));
+    tag("q.join3");
+    let from = From::Join(k_up, b2(From::Join(k_low, b2(From::Table(0)), b2(From::Table(1)), conj(lower))), b2(From::Table(2)), conj(upper));
+    let w = widths.iter().sum::<usize>();
+    let where_ = if rng.chance(1, 3) {
+        tag("where.one-side");
+        let c = rng.below(w as u64) as usize;
+        Some(match rng.below(3) {
+            0 => cmp("le", E::Col(0), lit_i(rng.range(2, 9) as i128)),
+            1 => cmp(*rng.pick(&["ge", "lt", "ne"]), E::Col(c), lit_i(base + rng.range(0, 2) as i128)),
+            _ => E::IsNull(true, b(E::Col(c))),
+        })
+    } else {
+        None
+    };
+    let mut q = Select { distinct: false, from, where_, group_by: vec![], aggs: vec![], items: None, order_by: vec![], limit: None, offset: None, having: None };
+    match rng.below(8) {
+        0 => {
+            tag("q.agg");
+            q.aggs.push(super::sql::Agg { f: "cnt*", arg: None });
+        }
+        1..=4 => {
+            // the three row ids: which rows were paired
+            q.items = Some(vec![E::Col(0), E::Col(o1), E::Col(o2)]);
+            if rng.chance(1, 4) {
+                tag("q.orderby.total");
+                q.order_by = vec![(0, rng.chance(1, 2)), (1, true), (2, rng.chance(1, 2))];
+            }
+        }
+        _ => {}
+    }
+    let mut ops: Vec<Op> = Vec::new();
+    let mut next_id: Vec<i128> = sizes.iter().map(|n| *n as i128 + 1).collect();
+    let mut insert = |rng: &mut Rng, t: usize, ops: &mut Vec<Op>| {
+        let n = rng.range(1, 3);
+        let mut rows = Vec::new();
+        for _ in 0..n {
+            let row: Vec<E> = (0..widths[t])
+                .map(|c| {
+                    if c == 0 {
+                        next_id[t] += 1;
+                        lit_i(next_id[t] - 1)
+                    } else {
+                        E::Lit(key_val(rng, c))
+                    }
+                })
+                .collect();
+            rows.push(row);
+        }
+        ops.push(Op::Stmt(Stmt::Insert(t, rows)));
+    };
+    // rows that arrive later: behind the loaded ones whatever their keys
+    if rng.chance(1, 3) {
+        tag("chain.history");
+        let t = *rng.pick(&[0usize, 0, 2]);
+        insert(rng, t, &mut ops);
+        if rng.chance(1, 3) {
+            ops.push(Op::Stmt(Stmt::Delete(t, Some(cmp("eq", E::Col(0), lit_i(rng.range(1, 3) as i128))))));
+        }
+    }
+    ops.push(Op::Stmt(Stmt::Select(q.clone())));
+    tag("q.around-analyze");
+    ops.push(Op::Analyze(1000, 10000));
+    ops.push(Op::Stmt(Stmt::Select(q.clone())));
+    if rng.chance(1, 2) {
+        tag("q.around-dml");
+        let t = *rng.pick(&[0usize, 0, 1, 2]);
+        insert(rng, t, &mut ops);
+        ops.push(Op::Stmt(Stmt::Select(q)));
+    }
+    drop(insert);
+    drop(tag);
+    (show_case(&db, &[], &ops), tags)
+}
+
 fn gen_case(rng: &mut Rng) -> (String, BTreeSet<String>) {
+    if rng.chance(1, 10) {
+        return gen_chain_case(rng);
+    }
     let region = match rng.below(50) {
         0..=5 => Region::UpdateIndexed,
         6 | 7 => Region::ReinsertInRollback,
@@ -2558,14 +3268,18 @@ fn gen_case(rng: &mut Rng) -> (String, BTreeSet<String>) {
         }
         _ => {}
     }
+    // keys re-used inside one transaction (sessions and batches)
+    if matches!(g.region, Region::None | Region::ReinsertInRollback) && (g.region == Region::ReinsertInRollback || g.rng.chance(1, 3)) {
+        g.reuse_family(&mut ops);
+    }
     // where the late database creates its indexes: mostly after the history, sometimes in its middle
     if !g.ixs.is_empty() && g.rng.chance(9, 10) {
         let in_session = |ops: &[Op], pos: usize| {
             let mut open = false;
             for o in &ops[..pos] {
                 match o {
-                    Op::Begin => open = true,
-                    Op::Rollback | Op::Commit => open = false,
+                    Op::Begin | Op::Batch => open = true,
+                    Op::Rollback | Op::Commit | Op::EndBatch => open = false,
                     _ => {}
                 }
             }
@@ -2698,6 +3412,12 @@ fn gen_all(rng: &mut Rng, tier: Tier) -> Vec<Case> {
         })
         .collect();
     all.extend(rule_cases);
+    let nord = match tier {
+        Tier::Quick => 400,
+        Tier::Thorough => 4000,
+    };
+    let mut orng = rng.fork("orderings");
+    all.extend((0..nord).map(|_| gen_ord_case(&mut orng)));
     all
 }
 
@@ -2717,6 +3437,9 @@ impl Engine for PlanEngine {
         install_worker_panic_recorder();
         if line.starts_with("rule ") {
             return run_rule_case(line);
+        }
+        if line.starts_with("ord ") {
+            return run_ord_case(line);
         }
         if let Some(rest) = line.strip_prefix("measure ") {
             let o = run_case(rest, false);
